@@ -62,11 +62,11 @@ Proof. reflexivity. Qed.
 Definition goose_hdr : bytes := S_DELIM_DIRECTIVE ++ GOOSE_DELIM.
 
 (** the text handed to the scanner, for an up section [U] of good ulines *)
-Lemma goose_text_up U D : complete U -> ~ In 13%N U -> short U = true -> forallb goose_line_ok (ulines U) = true ->
+Lemma goose_text_up U D : complete U -> ~ In 13%N U -> forallb goose_line_ok (ulines U) = true ->
   goose_text (S_GOOSE_UP ++ U ++ S_GOOSE_DOWN ++ D) =
   Some (join S_NL ([goose_hdr; []] ++ goose_rewrite (ulines U) ++ [[]])).
 Proof.
-  intros Hc Hcr Hsh Hl. unfold goose_text.
+  intros Hc Hcr Hl. unfold goose_text.
   assert (E : lines (S_GOOSE_UP ++ U ++ S_GOOSE_DOWN ++ D) =
               (S_GOOSE ++ [32;85;112]%N) :: ulines U ++ [] :: (S_GOOSE ++ [32;68;111;119;110]%N) :: lines D).
   { unfold S_GOOSE_UP, S_GOOSE_DOWN.
@@ -74,7 +74,7 @@ Proof.
       with ((S_GOOSE ++ [32;85;112]%N) ++ 10%N :: (U ++ ([] ++ 10%N :: ((S_GOOSE ++ [32;68;111;119;110]%N) ++ 10%N :: D))))
       by (repeat (rewrite <- app_assoc; simpl); reflexivity).
     rewrite lines_cons by (vm_compute; intuition discriminate).
-    rewrite (lines_short U _ Hc Hcr Hsh).
+    rewrite (lines_short U _ Hc Hcr).
     rewrite lines_cons by (vm_compute; intuition discriminate).
     rewrite lines_cons by (vm_compute; intuition discriminate).
     reflexivity. }
@@ -97,13 +97,12 @@ Proof.
 Qed.
 
 (** decidable, on the bytes the formatter writes for one change: every line is copied unchanged,
-    the delimiter line is inserted exactly once, after the last line; no carriage return; every
-    line fits bufio.Scanner's 64 KiB buffer; the comment line does not read as the delimiter line *)
+    the delimiter line is inserted exactly once, after the last line; no carriage return; the
+    comment line does not read as the delimiter line *)
 Definition goose_change_ok (c : change) : bool :=
   forallb goose_line_ok (ulines (tool_change c))
   && lb_eqb (goose_rewrite (ulines (tool_change c))) (ulines (tool_change c) ++ [GOOSE_DELIM])
   && negb (existsb (N.eqb 13) (tool_change c))
-  && short (tool_change c)
   && negb (has_prefix (tool_comment S_DASH2_SP (c_comment c)) GOOSE_DELIM).
 
 Lemma tool_change_complete c : complete (tool_change c).
@@ -128,7 +127,6 @@ Qed.
 
 Lemma goose_up_facts cs : Forall (fun c => goose_change_ok c = true) cs ->
   complete (concat (map tool_change cs)) /\ ~ In 13%N (concat (map tool_change cs)) /\
-  short (concat (map tool_change cs)) = true /\
   forallb goose_line_ok (ulines (concat (map tool_change cs))) = true /\
   forall L, L <> [] ->
     join S_NL (goose_rewrite (ulines (concat (map tool_change cs))) ++ L) =
@@ -136,8 +134,8 @@ Lemma goose_up_facts cs : Forall (fun c => goose_change_ok c = true) cs ->
 Proof.
   induction cs as [|c cs IH]; intros Hall.
   - repeat split; try reflexivity; [left; reflexivity|intros []].
-  - apply Forall_cons_iff in Hall as [Hc Hall]. destruct (IH Hall) as (I1 & I2 & I2s & I3 & I4).
-    unfold goose_change_ok in Hc. apply andb_true_iff in Hc as [Hc H4]. apply andb_true_iff in Hc as [Hc H3s].
+  - apply Forall_cons_iff in Hall as [Hc Hall]. destruct (IH Hall) as (I1 & I2 & I3 & I4).
+    unfold goose_change_ok in Hc. apply andb_true_iff in Hc as [Hc H4].
     apply andb_true_iff in Hc as [Hc H3].
     apply andb_true_iff in Hc as [H1 H2]. apply lb_eqb_eq in H2. apply not_existsb_13 in H3.
     pose proof (tool_change_complete c) as Hcc.
@@ -147,10 +145,6 @@ Proof.
       by (apply lines_app_complete; assumption).
     split; [apply complete_app; assumption|].
     split; [intros Hin; apply in_app_or in Hin as [Hin|Hin]; auto|].
-    split.
-    { unfold short. rewrite Hl, forallb_app.
-      change (short (tool_change c) && short (concat (map tool_change cs)) = true).
-      rewrite H3s, I2s. reflexivity. }
     split; [rewrite Hl, forallb_app, H1, I3; reflexivity|].
     intros L HL. rewrite Hl, goose_rewrite_app, H2. repeat rewrite <- app_assoc.
     rewrite lines_join_app; [|exact Hcc|exact H3|discriminate].
@@ -163,7 +157,7 @@ Lemma goose_text_plan p : Forall (fun c => goose_change_ok c = true) (p_changes 
   goose_text (goose_content p) =
   Some (goose_hdr ++ 10%N :: 10%N :: concat (map (fun c => tool_change c ++ GOOSE_DELIM ++ [10%N]) (p_changes p))).
 Proof.
-  intros Hall. destruct (goose_up_facts _ Hall) as (H1 & H2 & H2s & H3 & H4).
+  intros Hall. destruct (goose_up_facts _ Hall) as (H1 & H2 & H3 & H4).
   unfold goose_content, tool_up. rewrite goose_text_up by assumption. f_equal.
   cbn [app]. rewrite join_cons_ne by discriminate. rewrite join_cons_ne.
   - rewrite H4 by discriminate. cbn [join]. rewrite app_nil_r. unfold S_NL. reflexivity.
